@@ -157,6 +157,12 @@ def build(cfg, float_mode=False):
              level_params={'dt': cfg['dt'], 'restol': cfg['restol'], 'residual_type': cfg.get('residual_type', 'full_abs'),
                            'nsweeps': ([cfg.get('nsweeps', 1)] * (NL - 1) + [1]) if NL > 1 else cfg.get('nsweeps', 1)},
              step_params={'maxiter': cfg['maxiter']})
+    if cfg.get('_sw_obj') is not None:  # ONE sweeper-parameter dictionary handed to several controllers (filled on first use, passed on as it is afterwards)
+        if not cfg['_sw_obj']:
+            cfg['_sw_obj'].update(sw)
+        d['sweeper_params'] = cfg['_sw_obj']
+    if cfg.get('_sweeper_class') is not None:
+        d['sweeper_class'] = cfg['_sweeper_class']
     if cfg.get('dt_initial') is not None:
         d['level_params']['dt_initial'] = cfg['dt_initial']  # (a declared level parameter; the step-size spreader uses it as a floor near Tend)
     if cfg.get('inexact'):
